@@ -302,7 +302,10 @@ fn many_voices_part(rep: &Report, tier: Tier) {
         };
         ws.push((unit(0), true));
         ws.push((unit(nv - 1), true));
-        ws.push((crate::props::c10::many_weights(nv)[4].clone(), true)); // ramp, every entry non-zero
+        // every entry non-zero and all different, adding up to exactly 1: 1/2, 1/4, ..., the last one repeated
+        let mut dy: Vec<f64> = (0..nv).map(|i| 0.5f64.powi(i as i32 + 1)).collect();
+        dy[nv - 1] = dy[nv - 2];
+        ws.push((dy, true));
         let mut tail = vec![0.0; nv];
         tail[nv - 1] = 0.5;
         tail[nv - 2] = 0.5;
